@@ -52,6 +52,9 @@ def harnesses(tier, seed):
             bucket = heavy if ty in ("FL", "FLF") else light
             for (n, t, c) in ((3, 2, 1), (3, 2, 2), (3, 3, 1), (2, 2, 2), (3, 3, 2)):
                 cvs = count_vectors(ty, n)
+                if ty == "FLF" and n > 2:
+                    # flat_map + filter col_x kernel at n = 3: 9-15 min, some exhaust 28 GB; FL at n = 3 and FLF at n = 2 stay
+                    continue
                 for owners in owner_tables(n, t, c):
                     for k in cvs:
                         bucket.append(collect_harness("c07", "collect_x", ty, "slice", n, t, c, owners, k))
